@@ -83,82 +83,82 @@ theorem PDesc.ofMinMaxMidBytes_fill_isSome (sh : MMShape) (pv : Option PVal) :
 /-! ## non-vacuity
     request = [ sid (CODED-CONST 0x2E); mm : MIN-MAX-LENGTH-TYPE, MIN-LENGTH 1, MAX-LENGTH 3, TERMINATION ZERO;
                 st : STRUCTURE { hx : MIN-MAX-LENGTH-TYPE, MIN 2, no MAX, TERMINATION HEX-FF; n : 8 bit }; tail : 8 bit ] -/
-def tSh : MMShape := { name := "mm", bytePos := none, enc := none, hl := true, minLen := 1, maxLen := some 3, term := .zero }
-def tShX : MMShape := { name := "hx", bytePos := none, enc := none, hl := true, minLen := 2, maxLen := none, term := .hexff }
-def tInner : List MDesc := [MDesc.ofMinMaxMid tShX, MDesc.plain (pu8 "n")]
-def tSt : PDesc := PDesc.ofValue "st" none (DDesc.struct (MDescs.ps tInner))
-def tMs : List MDesc :=
-  [MDesc.plain (PDesc.ofObjConst ⟨"sid", none, none, none, true, 8, .uint32⟩ (.int 0x2E)), MDesc.ofMinMaxMid tSh, MDesc.plain tSt,
+def wSh : MMShape := { name := "mm", bytePos := none, enc := none, hl := true, minLen := 1, maxLen := some 3, term := .zero }
+def wShX : MMShape := { name := "hx", bytePos := none, enc := none, hl := true, minLen := 2, maxLen := none, term := .hexff }
+def wInner : List MDesc := [MDesc.ofMinMaxMid wShX, MDesc.plain (pu8 "n")]
+def wSt : PDesc := PDesc.ofValue "st" none (DDesc.struct (MDescs.ps wInner))
+def wMs : List MDesc :=
+  [MDesc.plain (PDesc.ofObjConst ⟨"sid", none, none, none, true, 8, .uint32⟩ (.int 0x2E)), MDesc.ofMinMaxMid wSh, MDesc.plain wSt,
    MDesc.plain (pu8 "tail")]
-def tMk (mm hx : PVal) : PVal := .dict [("mm", mm), ("st", .dict [("hx", hx), ("n", .atom (.int 7))]), ("tail", .atom (.int 0x99))]
-def tB (b : List Nat) : PVal := .atom (.bytes b)
+def wMk (mm hx : PVal) : PVal := .dict [("mm", mm), ("st", .dict [("hx", hx), ("n", .atom (.int 7))]), ("tail", .atom (.int 0x99))]
+def wB (b : List Nat) : PVal := .atom (.bytes b)
 
-theorem tSh_ok : tSh.okMid ∧ tShX.okMid := by decide
+theorem wSh_ok : wSh.okMid ∧ wShX.okMid := by decide
 
-theorem tSt_described : DescribedP2b tSt := by
-  refine DescribedP2b.structM "st" none tInner ?_ ?_ ?_ ⟨rfl, trivial⟩ rfl
+theorem wSt_described : DescribedP2b wSt := by
+  refine DescribedP2b.structM "st" none wInner ?_ ?_ ?_ ⟨rfl, trivial⟩ rfl
   · intro m hmem hmid
-    simp only [tInner, List.mem_cons, List.mem_nil_iff, or_false] at hmem
+    simp only [wInner, List.mem_cons, List.mem_nil_iff, or_false] at hmem
     rcases hmem with rfl | rfl
     · cases hmid
     · exact DescribedP2b.base _ (described_pu8' _)
   · intro m hmem hmid
-    simp only [tInner, List.mem_cons, List.mem_nil_iff, or_false] at hmem
+    simp only [wInner, List.mem_cons, List.mem_nil_iff, or_false] at hmem
     rcases hmem with rfl | rfl
-    · exact ⟨tShX, tSh_ok.2, rfl⟩
+    · exact ⟨wShX, wSh_ok.2, rfl⟩
     · cases hmid
-  · simp [PDescs.namesOk, MDescs.ps, tInner, MDesc.ofMinMaxMid, MDesc.plain, PDesc.name, Param.name, PDesc.ofMinMaxMidBytes,
-      MMShape.leaf, MMLeaf.toParam, tShX, pu8, PDesc.ofObjValue, Obj.toParam]
+  · simp [PDescs.namesOk, MDescs.ps, wInner, MDesc.ofMinMaxMid, MDesc.plain, PDesc.name, Param.name, PDesc.ofMinMaxMidBytes,
+      MMShape.leaf, MMLeaf.toParam, wShX, pu8, PDesc.ofObjValue, Obj.toParam]
 
-theorem tMs_described : (∀ m ∈ tMs, m.mid = false → DescribedP2b m.p) ∧
-    (∀ m ∈ tMs, m.mid = true → ∃ sh : MMShape, sh.okMid ∧ m.p = PDesc.ofMinMaxMidBytes sh) := by
+theorem wMs_described : (∀ m ∈ wMs, m.mid = false → DescribedP2b m.p) ∧
+    (∀ m ∈ wMs, m.mid = true → ∃ sh : MMShape, sh.okMid ∧ m.p = PDesc.ofMinMaxMidBytes sh) := by
   constructor
   · intro m hmem hmid
-    simp only [tMs, List.mem_cons, List.mem_nil_iff, or_false] at hmem
+    simp only [wMs, List.mem_cons, List.mem_nil_iff, or_false] at hmem
     rcases hmem with rfl | rfl | rfl | rfl
     · exact DescribedP2b.base _ (DescribedP2.const _ _ (by simp [Obj.ok, Obj.encOk, Obj.sizeOk]) (by simp [Obj.inRange]))
     · cases hmid
-    · exact tSt_described
+    · exact wSt_described
     · exact DescribedP2b.base _ (described_pu8' _)
   · intro m hmem hmid
-    simp only [tMs, List.mem_cons, List.mem_nil_iff, or_false] at hmem
+    simp only [wMs, List.mem_cons, List.mem_nil_iff, or_false] at hmem
     rcases hmem with rfl | rfl | rfl | rfl
     · cases hmid
-    · exact ⟨tSh, tSh_ok.1, rfl⟩
+    · exact ⟨wSh, wSh_ok.1, rfl⟩
     · cases hmid
     · cases hmid
 
-theorem tMs_names : PDescs.namesOk (MDescs.ps tMs) ∧ PDescs.eopLast (MDescs.ps tMs) ∧ MDescs.lastMid tMs = false := by
+theorem wMs_names : PDescs.namesOk (MDescs.ps wMs) ∧ PDescs.eopLast (MDescs.ps wMs) ∧ MDescs.lastMid wMs = false := by
   refine ⟨?_, ⟨rfl, rfl, rfl, trivial⟩, rfl⟩
-  simp [PDescs.namesOk, MDescs.ps, tMs, MDesc.ofMinMaxMid, MDesc.plain, PDesc.name, Param.name, PDesc.ofObjConst, Obj.toConstParam,
-    PDesc.ofMinMaxMidBytes, MMShape.leaf, MMLeaf.toParam, tSh, tSt, PDesc.ofValue, pu8, PDesc.ofObjValue, Obj.toParam]
+  simp [PDescs.namesOk, MDescs.ps, wMs, MDesc.ofMinMaxMid, MDesc.plain, PDesc.name, Param.name, PDesc.ofObjConst, Obj.toConstParam,
+    PDesc.ofMinMaxMidBytes, MMShape.leaf, MMLeaf.toParam, wSh, wSt, PDesc.ofValue, pu8, PDesc.ofObjValue, Obj.toParam]
 
 /-- accepted: one byte (terminated by `00`), three bytes = MAX-LENGTH (NO terminator), a zero byte BEFORE MIN-LENGTH (no terminator
     there); the inner leaf is terminated by `FF` -/
-example : [tMk (tB [5]) (tB [1, 2]), tMk (tB [1, 2, 3]) (tB [1, 2, 0, 4]), tMk (tB [0, 9]) (tB [0xFF, 0xFF])].map (fun p =>
-      (p.wfAtoms && p.typedForP (MDescs.ps tMs) && p.acceptedByP (MDescs.ps tMs),
-       (encodeMessage none (PDescs.toParams (MDescs.ps tMs)) p none true).toOption)) =
+example : [wMk (wB [5]) (wB [1, 2]), wMk (wB [1, 2, 3]) (wB [1, 2, 0, 4]), wMk (wB [0, 9]) (wB [0xFF, 0xFF])].map (fun p =>
+      (p.wfAtoms && p.typedForP (MDescs.ps wMs) && p.acceptedByP (MDescs.ps wMs),
+       (encodeMessage none (PDescs.toParams (MDescs.ps wMs)) p none true).toOption)) =
     [(true, some ([0x2E, 5, 0, 1, 2, 0xFF, 7, 0x99], 0)), (true, some ([0x2E, 1, 2, 3, 1, 2, 0, 4, 0xFF, 7, 0x99], 0)),
      (true, some ([0x2E, 0, 9, 0, 0xFF, 0xFF, 0xFF, 7, 0x99], 0))] := by decide +kernel
 /-- rejected with `EncodeError`: the empty value, four bytes, an embedded terminator at a position ≥ MIN-LENGTH (outer and inner leaf),
     a string, an int, omission -/
-example : [tMk (tB []) (tB [1, 2]), tMk (tB [1, 2, 3, 4]) (tB [1, 2]), tMk (tB [1, 0]) (tB [1, 2]), tMk (tB [1]) (tB [1, 2, 0xFF]),
-      tMk (tB [1]) (tB [1]), tMk (.atom (.str [0x41])) (tB [1, 2]), tMk (.atom (.int 1)) (tB [1, 2]),
-      .dict [("st", .dict [("hx", tB [1, 2]), ("n", .atom (.int 7))]), ("tail", .atom (.int 0x99))]].all (fun p =>
-      p.wfAtoms && p.typedForP (MDescs.ps tMs) && p.acceptedByP (MDescs.ps tMs) == false &&
-      decide (p.needFor (MDescs.ps tMs) ≤ modelFuel) &&
-      errClass (encodeMessage none (PDescs.toParams (MDescs.ps tMs)) p none true) == some .encode) = true := by decide +kernel
+example : [wMk (wB []) (wB [1, 2]), wMk (wB [1, 2, 3, 4]) (wB [1, 2]), wMk (wB [1, 0]) (wB [1, 2]), wMk (wB [1]) (wB [1, 2, 0xFF]),
+      wMk (wB [1]) (wB [1]), wMk (.atom (.str [0x41])) (wB [1, 2]), wMk (.atom (.int 1)) (wB [1, 2]),
+      .dict [("st", .dict [("hx", wB [1, 2]), ("n", .atom (.int 7))]), ("tail", .atom (.int 0x99))]].all (fun p =>
+      p.wfAtoms && p.typedForP (MDescs.ps wMs) && p.acceptedByP (MDescs.ps wMs) == false &&
+      decide (p.needFor (MDescs.ps wMs) ≤ modelFuel) &&
+      errClass (encodeMessage none (PDescs.toParams (MDescs.ps wMs)) p none true) == some .encode) = true := by decide +kernel
 /-- the theorem applies: the PDU of the first value decodes to its completion -/
-example : ∃ cursor, decodeMessage none (PDescs.toParams (MDescs.ps tMs)) [0x2E, 5, 0, 1, 2, 0xFF, 7, 0x99] true =
-    .ok (.dict (PDescs.complete (MDescs.ps tMs)
-      [("mm", tB [5]), ("st", .dict [("hx", tB [1, 2]), ("n", .atom (.int 7))]), ("tail", .atom (.int 0x99))]), cursor) := by
-  rcases C04_nested2b tMs tMs_described.1 tMs_described.2 tMs_names.1 tMs_names.2.1 tMs_names.2.2 (tMk (tB [5]) (tB [1, 2]))
+example : ∃ cursor, decodeMessage none (PDescs.toParams (MDescs.ps wMs)) [0x2E, 5, 0, 1, 2, 0xFF, 7, 0x99] true =
+    .ok (.dict (PDescs.complete (MDescs.ps wMs)
+      [("mm", wB [5]), ("st", .dict [("hx", wB [1, 2]), ("n", .atom (.int 7))]), ("tail", .atom (.int 0x99))]), cursor) := by
+  rcases C04_nested2b wMs wMs_described.1 wMs_described.2 wMs_names.1 wMs_names.2.1 wMs_names.2.2 (wMk (wB [5]) (wB [1, 2]))
     (by decide +kernel) none (by decide +kernel) (by decide +kernel) with ⟨e, he, _⟩ | ⟨kvs, pdu, w, hkvs, _, henc, hrt⟩
-  · have : (encodeMessage none (PDescs.toParams (MDescs.ps tMs)) (tMk (tB [5]) (tB [1, 2])) none true).toOption = none := by rw [he]; rfl
+  · have : (encodeMessage none (PDescs.toParams (MDescs.ps wMs)) (wMk (wB [5]) (wB [1, 2])) none true).toOption = none := by rw [he]; rfl
     exact absurd this (by decide +kernel)
-  · have h2 : (encodeMessage none (PDescs.toParams (MDescs.ps tMs)) (tMk (tB [5]) (tB [1, 2])) none true).toOption = some (pdu, w) := by
+  · have h2 : (encodeMessage none (PDescs.toParams (MDescs.ps wMs)) (wMk (wB [5]) (wB [1, 2])) none true).toOption = some (pdu, w) := by
       rw [henc]; rfl
-    have h4 : (encodeMessage none (PDescs.toParams (MDescs.ps tMs)) (tMk (tB [5]) (tB [1, 2])) none true).toOption
+    have h4 : (encodeMessage none (PDescs.toParams (MDescs.ps wMs)) (wMk (wB [5]) (wB [1, 2])) none true).toOption
         = some ([0x2E, 5, 0, 1, 2, 0xFF, 7, 0x99], 0) := by decide +kernel
     rw [h2] at h4
     simp only [Option.some.injEq, Prod.mk.injEq] at h4
@@ -168,10 +168,10 @@ example : ∃ cursor, decodeMessage none (PDescs.toParams (MDescs.ps tMs)) [0x2E
     obtain ⟨cursor, hdec⟩ := hrt hw (fun h => by cases h)
     exact ⟨cursor, hdec⟩
 /-- the decoder's result on the three accepted PDUs, concretely -/
-example : [tMk (tB [5]) (tB [1, 2]), tMk (tB [1, 2, 3]) (tB [1, 2, 0, 4]), tMk (tB [0, 9]) (tB [0xFF, 0xFF])].all (fun p =>
-    match encodeMessage none (PDescs.toParams (MDescs.ps tMs)) p none true with
-    | .ok (pdu, _) => (match decodeMessage none (PDescs.toParams (MDescs.ps tMs)) pdu true with
-        | .ok (v, cursor) => pvalEq v ((DDesc.struct (MDescs.ps tMs)).complete p) && cursor == pdu.length
+example : [wMk (wB [5]) (wB [1, 2]), wMk (wB [1, 2, 3]) (wB [1, 2, 0, 4]), wMk (wB [0, 9]) (wB [0xFF, 0xFF])].all (fun p =>
+    match encodeMessage none (PDescs.toParams (MDescs.ps wMs)) p none true with
+    | .ok (pdu, _) => (match decodeMessage none (PDescs.toParams (MDescs.ps wMs)) pdu true with
+        | .ok (v, cursor) => pvalEq v ((DDesc.struct (MDescs.ps wMs)).complete p) && cursor == pdu.length
         | .error _ => false)
     | .error _ => false) = true := by decide +kernel
 
